@@ -72,6 +72,40 @@ def type_of_term(F, body, t):
     return None
 
 
+def flag_enum(F, ty):
+    """the two variants of a crate-local field-less enum used as a flag, or None"""
+    adt = F.adts.get((ty or "").strip())
+    if adt and adt.get("kind") == "Enum" and len(adt.get("variants") or []) == 2 and not any(v.get("fields") for v in adt["variants"]):
+        return [v["name"] for v in adt["variants"]]
+    return None
+
+
+def flag_true_variant(repo, ty):
+    """index of the variant that every `fn(bool) -> ty` of the crate returns for `true` (and the other one for `false`), or None"""
+    F = repo.F
+    names = flag_enum(F, ty)
+    if names is None:
+        return None
+    got = set()
+    for b in F.fn_bodies():
+        if (b.rec.get("inputs") or []) != ["bool"] or (b.rec.get("output") or "").strip() != ty.strip():
+            continue
+        tb = repo.tb(b)
+        img = {}
+        for val in (0, 1):
+            res = paths.simulate(b, tb, paths.Evaluator({("bool", ("param", 1)): val}))
+            if res.end != "return":
+                return None
+            v = strip(paths.path_value(b, tb, res.blocks, 0))
+            if v[0] != "agg" or v[2] not in names:
+                return None
+            img[val] = names.index(v[2])
+        if img[0] == img[1]:
+            return None
+        got.add(img[1])
+    return got.pop() if len(got) == 1 else None
+
+
 # ====================================================================== U256 method classes
 CLOSED_II = {
     # name: (modulus param index (1-based local), operands that must already be reduced, one-line reason)
@@ -94,17 +128,22 @@ def classify_u256(repo):
     prim = None
     for b in methods:
         ins = b.rec.get("inputs") or []
-        if ins == ["&mut " + U256, "&" + U256, "bool"]:
+        # in place (`&mut self`) or by value (`self -> U256`); the carry is a bool or a two-valued flag type of the crate
+        if len(ins) == 3 and ins[1] == "&" + U256 and (ins[0] == "&mut " + U256 or (ins[0] == U256 and b.rec.get("output") == U256)) and \
+                (ins[2] == "bool" or flag_enum(F, ins[2]) is not None):
             if any(fn.get("name") == "sub_with_borrow" for _, t in b.calls() for fn in [t.get("fn") or {}]):
                 if prim is not None:
                     raise FactsError("two candidates for the conditional-subtraction primitive")
                 prim = b
     if prim is None:
         raise FactsError("conditional-subtraction primitive (U256, &modulus, carry) not found")
-    closed = {prim.rec["path"]: {"class": "prim", "mod": 2, "needs": []}}
+    prim_by_value = (prim.rec.get("inputs") or [""])[0] == U256
+    closed = {prim.rec["path"]: {"class": "prim", "mod": 2, "needs": [], "by_value": prim_by_value}}
     # helper functions whose *result* is a value that just went through the conditional subtraction (a phase split off a
     # modular operation): {def path: index of its modulus parameter}
     reduced_fns = {}
+    if prim_by_value:
+        reduced_fns[prim.rec["path"]] = 2
     for hb in F.fn_bodies():
         if hb.rec.get("output") != U256 or hb is prim:
             continue
@@ -115,7 +154,7 @@ def classify_u256(repo):
             v = a
             while v[0] == "field" and v[2] == 0:
                 v = v[1]
-            if v[0] == "mutcall" and v[1].d == prim.rec["path"] and v[3] == 0:
+            if (v[0] == "mutcall" and v[1].d == prim.rec["path"] and v[3] == 0) or (prim_by_value and v[0] == "call" and v[1].d == prim.rec["path"]):
                 m = strip(v[2][1])
                 if m[0] == "init" and isinstance(m[1], tuple):
                     ks.add(m[1][1])
@@ -234,6 +273,14 @@ class Reducer:
             d = t[1].d
             if d in ("crate::u256::U256::zero", "crate::u256::U256::one"):
                 return True
+            info = self.closed.get(d)
+            if info and info.get("by_value"):
+                # the conditional subtraction in its by-value form: the returned value is what the in-place form leaves in *self
+                marg = t[2][info["mod"] - 1]
+                if self.repo.static_of(marg) == M:
+                    return True
+                why.append("%s applied with modulus %s, but the type's modulus is %s" % (t[1].name, show(marg, maxdepth=3), M))
+                return False
             if d == "crate::u256::U256::random":
                 if self.repo.static_of(t[2][1]) == M:
                     return True
@@ -544,17 +591,33 @@ def rule_guard(repo):
         return {"L": "G", "G": "L", "E": "E"}[o]
 
     # 1. the primitive: subtract iff carry or self >= modulo
+    by_value = closed[prim.rec["path"]].get("by_value")
+    is_self_v = (lambda t: t == ("field", ("param", 1), 0) or t == ("param", 1)) if by_value else is_self0
+    carry_ty = (prim.rec.get("inputs") or ["", "", "bool"])[2]
+    carry_set = 1
+    if carry_ty != "bool":
+        # a flag type instead of bool: the variant that means "carried" is the one the crate's own bool → flag conversions give
+        # for `true` (they must all agree); without such a conversion the variants' meaning is not readable from the code
+        carry_set = flag_true_variant(repo, carry_ty)
+
     def spec_prim(asg, atoms):
-        a, rev = ord_atom(atoms, is_self0, is_par0(2))
-        carry = asg.get(("bool", ("param", 3)))
-        if a is None or carry is None:
+        a, rev = ord_atom(atoms, is_self_v, is_par0(2))
+        carry = asg.get(("bool", ("param", 3))) if carry_ty == "bool" else asg.get(("discr", ("param", 3)))
+        if a is None or carry is None or carry_set is None:
             return "?"
         o = flip(asg[a]) if rev else asg[a]
-        return bool(carry) or o != "L"
+        return carry == carry_set or o != "L"
+
     def eff_prim(res, asg, tb):
-        # what *self ends up as: untouched, or the result of one subtraction of the modulus (in place, or tried on a copy and kept)
-        v = strip(paths.path_value(prim, tb, res.blocks, ("deref", 1)))
-        if v == ("init", ("deref", 1)):
+        # what *self ends up as (by value: what is returned): untouched, or the result of one subtraction of the modulus (in place,
+        # or tried on a copy and kept)
+        v = strip(paths.path_value(prim, tb, res.blocks, 0 if by_value else ("deref", 1)))
+        if by_value and v[0] == "phi":
+            # `self` handed back: what the (mutable) parameter holds at the end of this path
+            v = strip(paths.path_value(prim, tb, res.blocks, 1))
+            if v[0] == "phi":
+                return "?"
+        if v == (("param", 1) if by_value else ("init", ("deref", 1))):
             return False
         return any(x[0] == "mutcall" and x[1].name == "sub_with_borrow" for x in walk(v))
     run(prim, "conditional subtraction: subtract ⇔ carry ∨ self ≥ modulus", spec_prim,
